@@ -11,9 +11,9 @@ _T = ['sw_cons2prim_prim2cons', 'sw_prim2cons_cons2prim', 'e_cons2prim_prim2cons
       'e2_htot', 'e2_rttot', 'sw_velocity', 'e_asound_sq', 'e_mach_signed', 'e_mach_partial', 'e_mach_abs', 'e_ptot',
       'e_entropy', 'e2_mach', 'e2_asound_sq', 'e2_velocitymag', 'e2_ptot', 'e2_entropy', 'e_mach_negative_witness']
 THEOREMS = ['Flowdyn.C17.' + t for t in _T]
-AUDIT_IMPORTS = ['Flowdyn.Props.KernelsBridge']
+AUDIT_IMPORTS = ['Flowdyn.Props.KernelsBridge', 'Flowdyn.Props.Kernels2DBridge']
 # tie a: the bodies of the conversions and named variables are translated from /repo on every run and proved equal to the model's
-THEOREMS = THEOREMS + ['Flowdyn.GenK.%s_eq' % k for k in ['ePressure', 'eCons2prim', 'ePrim2cons', 'eDensity', 'eVelocity', 'eVelocityMag', 'eAsound', 'eMach', 'eEntropy', 'eEnthalpy', 'ePtot', 'eRttot', 'eHtot', 'eMassflow', 'eKinetic1', 'swCons2prim', 'swPrim2cons', 'swHeight', 'swMassflow', 'swVelocity']]
+THEOREMS = THEOREMS + ['Flowdyn.GenK.%s_eq' % k for k in ['ePressure', 'eCons2prim', 'ePrim2cons', 'eDensity', 'eVelocity', 'eVelocityMag', 'eAsound', 'eMach', 'eEntropy', 'eEnthalpy', 'ePtot', 'eRttot', 'eHtot', 'eMassflow', 'eKinetic1', 'swCons2prim', 'swPrim2cons', 'swHeight', 'swMassflow', 'swVelocity']] + ['Flowdyn.GenK2.%s_eq' % k for k in ['e2Cons2prim', 'e2Prim2cons', 'e2Pressure', 'e2Kinetic', 'e2VelocityX', 'e2VelocityY', 'e2VelocityMag', 'e2Asound', 'e2Mach', 'e2Enthalpy', 'e2Rttot', 'e2Htot', 'e2Ptot', 'e2Entropy']]
 PARTIAL = {'Flowdyn.C17.e_mach_partial': "1D 'mach' equals |velocity|/asound only for u >= 0; for u < 0 the code returns the signed value (known finding K2, witness theorem e_mach_negative_witness)"}
 LEVEL_NOTE = ("round trips and rational variables over any ordered field; roots/powers/logs over the reals; the nozzle massflow "
               "(times section) and shape-per-cell clauses are checked by correspondence and sweep only")
